@@ -41,7 +41,7 @@ CHECKS = {
             "Task-level histories of gets, returns in any order, takes, retains, resizes and rejected recycles in both queue modes. A reference idle queue is maintained from the return log; the first object each get() offers must be its front (Fifo) or back (Lifo), Manager::create may only be called by a get() while the reference queue is empty, and every manager / hook / predicate callback must happen on a thread that is running a pool operation of an allowed kind (building a pool and idle time produce none).",
             "no thread-level pauses (the property quantifies over histories); " + B, "model-based property testing (proptest): reference queue as oracle", "6 C08"),
     "C09": ("msim", "exploration",
-            "Generated predicates (bit masks over idle positions and stateful FnMut shapes) and histories mixing retain / take with gets, returns, resizes and close, with pauses in retain and detach_object. Oracles: the predicate is asked once per idle object in queue order, removed / retained match the verdicts, size / idle / permits / users move by exactly the right amounts, take returns the same value and shrinks the pool by one, and a per-object ledger demands exactly one Manager::detach before every hand-over or destruction by a live pool and none for objects that stay.",
+            "Generated predicates (bit masks over idle positions and stateful FnMut shapes) and histories mixing retain / take with gets, returns, resizes and close, with pauses in retain and detach_object. Oracles: the predicate is asked exactly once per idle object (in any order), removed / retained match the verdicts, size / idle / permits / users move by exactly the right amounts, take returns the same value and shrinks the pool by one, and a per-object ledger demands exactly one Manager::detach before every hand-over or destruction by a live pool and none for objects that stay.",
             B, T + "detach ledger and before/after books as oracle", "6 C09"),
     "C11": ("msim", "exploration",
             "status() and the guarded snapshot are sampled after every step and at every park. At rest (nothing parked, nobody inside a manager or hook call) the four figures must equal ground truth; at all other instants size <= objects that exist or are being created, available <= size, waiting <= callers inside get(), every counter < 2^32, size > max_size only after a shrink or close.",
